@@ -408,6 +408,10 @@ class Model(CallsMixin, BuiltinsMixin):
         dims = self.broadcast(da, db, node)
         out = ARR(dims, promote(a, b, sym))
         out.lo = self._lo_binop(sym, a, b)
+        if a.k == 'arr' and b.k != 'arr':
+            out.lay = a.lay
+        elif b.k == 'arr' and a.k != 'arr':
+            out.lay = b.lay
         if sym in ('&', '|', '^') and a.dt == 'b':
             out.dt = 'b'
         out.taint = a.taint | b.taint
@@ -812,6 +816,18 @@ class Model(CallsMixin, BuiltinsMixin):
                 continue
             if c.k == 'arr' and c.dims is None:
                 return ARR(None, base.dt, taint=base.taint)
+            if c.k == 'arr' and c.src is not None and \
+                    isinstance(c.src, tuple) and c.src[0] == 'rowsof' and \
+                    lay is not None and lay[ax] is not None:
+                from .layout import layouts_conflict, _same_fac
+                if layouts_conflict(lay[ax], c.src[1]):
+                    self.site('S-layout', node, 'violation',
+                              'rows are selected by an index computed from an '
+                              'array whose composite axis is ordered %s '
+                              '(fastest first) while this axis is ordered %s'
+                              % (list(c.src[1]), list(lay[ax])))
+                elif _same_fac(lay[ax], c.src[1]):
+                    self.site('S-layout', node, 'ok')
             if c.k == 'arr':
                 advanced = True
                 if c.dt == 'b':
